@@ -278,6 +278,11 @@ pub fn run_world_check(c: WorldCheck, tier: Tier, seed: u64) -> i32 {
             s.enumerate("enumerate-delayed-rpcs", "world", all, &case);
         }
     }
+    if matches!(c.prop, "C05" | "C08") {
+        // the stored-state read alone fails (an RPC error is not "nothing stored"): crashes onto Pending records + failing listdatastore
+        let p = Profile { ds_read_faults: true, w_crash: 8, ..c.profile.clone() };
+        s.search("world-state-read-faults", "world", tier.pick(150, 3000), move || scenario_strategy(p.clone()), &case);
+    }
     if matches!(c.prop, "C02" | "C05" | "C07" | "C11") {
         crate::props::par::par_phase(&mut s, c.prop);
     }
